@@ -410,12 +410,20 @@ def run(ctx: lib.Ctx) -> None:
         ctx.violation('primitive tags differ from the model', {'correspondence': 'C17/prim_tags vs Comb.P_*', 'got': got}, found=False)
         return
     violations = 0
-    # fixed witnesses
-    for what, annotated, plain in FIXED:
+    # corpus of past disagreements, then the fixed witnesses
+    import glob
+    import json
+    import os
+    fixed = list(FIXED)
+    for path in sorted(glob.glob(os.path.join(lib.VERIF, 'corpus', PROP, '*.json'))):
+        doc = json.load(open(path))
+        fixed.append((f"corpus case {os.path.basename(path)}: {doc.get('why', '')}", doc['annotated'], doc['stripped']))
+        ctx.corpus_cases += 1
+    for what, annotated, plain in fixed:
         a, b = observe_text(annotated), observe_text(plain)
         ctx.case(('fixed', annotated), kind='fixed-witness', sample={'code': annotated, 'result': repr(a)[:200]})
         if a != b or a[0] != 'ok':
-            ctx.violation(f'fixed defect is back: {what}', {'annotated': annotated, 'stripped': plain, 'annotated_result': a, 'stripped_result': b,
+            ctx.violation(f'annotated and stripped twin differ — {what}', {'annotated': annotated, 'stripped': plain, 'annotated_result': a, 'stripped_result': b,
                                                            'repro': f'Interpreter().execute({annotated!r}) vs Interpreter().execute({plain!r})'}, found=True)
             violations += 1
     cases, meta, mcases, mmeta = [], [], [], []
